@@ -109,10 +109,12 @@ def run_history(ev, fa, fb, fc, n):
         if requester:
             ep = RSocketClient(provider([t]), handler_factory=_Handler, keep_alive_period=timedelta(days=20),
                                max_lifetime_period=timedelta(days=24), honor_lease=bool(LEASE), **kw)
+            t.instrument(ep)
             loop.create_task(ep.connect())
             loop.run_ready()
         else:
             ep = RSocketServer(t, handler_factory=_Handler, **kw)
+            t.instrument(ep)
             loop.run_ready()
         o.ep = ep
         h = ep._handler
@@ -201,6 +203,9 @@ def run_history(ev, fa, fb, fc, n):
                 if comp:
                     peer_done = True
                 o.applied.append('in:PAYLOAD' + ('+next' if nxt else '') + ('+complete' if comp else '') + ('+follows' if fol else ''))
+                if role == 'rr_req' and concb(c):
+                    o.applied[-1] += '(application-acts-before-the-loop-runs)'
+                    continue          # race: the response is queued for the receiver, the next (local) event comes first
             elif e == ERROR:
                 if peer_dead or peer_midfrag or (peer_done and role != 'ch_req' and role != 'ch_resp'):
                     continue
@@ -320,7 +325,7 @@ def run_history(ev, fa, fb, fc, n):
         o.by_ok = None
         o.reuse_ok = None
         if not o.closed:
-            if PROBE_REUSE and not requester and SID not in o.streams_open:
+            if PROBE_REUSE and not requester and SID not in o.streams_open and not peer_midfrag:
                 n1 = len(t.sent)
                 t.feed_wire(to_request_response_frame(SID, Payload(b'again')))
                 loop.run_ready()
